@@ -207,6 +207,9 @@ def near_misses():
     out["sub_flat3"] = raw(p.Sum((var("a")[ij], p.Product((-1, var("b")[ij], var("c")[ij])))), {"a": x, "b": x, "c": x}, (3, 4))
     out["sub_flat3s"] = raw(p.Sum((var("a")[ij], p.Product((-1, var("b")[ij], 2.0)))), {"a": x, "b": x}, (3, 4))
     out["sub_flat3b"] = raw(p.Sum((var("a")[ij], p.Product((-1, var("b")[(var("_1"),)], var("c")[ij])))), {"a": x, "b": y, "c": x}, (3, 4))
+    # a bare index variable (no operand at all)
+    out["bare_iname"] = raw(var("_0"), {}, (3,))
+    out["bare_iname2"] = raw(var("_1") + 0, {}, (3, 4))
     # a reduction variable the summand never uses: 5 * x[_0, _1], not x
     out["reduce_unused_var"] = red((var("_0"), var("_1")), {"_r0": (0, 5)}, x, (3, 4))
     out["reduce_unused_var2"] = red((var("_0"), var("_r0")), {"_r0": (0, 4), "_r1": (0, 2)}, x, (3,))
